@@ -219,7 +219,7 @@ fn hostile_startup(rng: &mut Rng, m: &str) -> Vec<u8> {
     }
 }
 
-fn build_with(cache: bool) -> Result<Cell, String> {
+fn build_with(cache: bool, parser: bool) -> Result<Cell, String> {
     let mut cell = Cell::new();
     let a = cell.add_mock("db.s0.primary.0");
     let b = cell.add_mock("db2.s0.primary.0");
@@ -230,12 +230,17 @@ fn build_with(cache: bool) -> Result<Cell, String> {
     if cache {
         cfg.pools[0].set("prepared_statements_cache_size", "8");
     }
+    if parser {
+        // the pooler's own SQL parser sees every Query / Parse body (more decoding of client bytes)
+        cfg.pools[0].set("query_parser_enabled", "true");
+        cfg.pools[0].set("query_parser_read_write_splitting", "true");
+    }
     cell.start_pgcat(&cfg, &StartOpts::default()).map_err(|e| format!("start: {:?}", e))?;
     Ok(cell)
 }
 
 fn canary(cell: &Cell, pool: &str, id: &str, n: u64) -> Result<(), String> {
-    let mut c = Conn::connect(&cell.addr(), &StartupOpts::new(USER, pool, PASS).app(id)).map_err(|e| format!("connect: {}", e))?;
+    let mut c = Conn::connect(&cell.addr(), &StartupOpts::new(USER, pool, PASS).app("app")).map_err(|e| format!("connect: {}", e))?;
     let qid = format!("{}.q{}", id, n);
     let r = c.query(&format!("SELECT 1 {}", tag(id, &qid, "rows=2 snap")), 10_000).map_err(|(m, e)| format!("no reply: {:?} after {}", e, summarize(&m)))?;
     let ids = row_idents(&r);
@@ -250,7 +255,9 @@ fn batch(seed: u64, cases: usize, rep: &Report) -> Result<(), String> {
     let mut rng = Rng::new(seed);
     // half of the batches run with the statement cache on (other code paths in the pooler)
     let cache_on = seed % 2 == 0;
-    let build = || build_with(cache_on);
+    // a third of them with the pooler's query parser on
+    let parser_on = (seed >> 1) % 3 == 0;
+    let build = || build_with(cache_on, parser_on);
     let mut cell = build()?;
     let mut n = 0u64;
     for ci in 0..cases {
@@ -291,7 +298,7 @@ fn batch(seed: u64, cases: usize, rep: &Report) -> Result<(), String> {
                     let _ = c.drain_to_eof(300);
                 }
                 _ => {
-                    let mut c = Conn::connect(&addr, &StartupOpts::new(USER, "db", PASS).app("hostile")).map_err(|e| e.to_string())?;
+                    let mut c = Conn::connect(&addr, &StartupOpts::new(USER, "db", PASS).app("app")).map_err(|e| e.to_string())?;
                     match state {
                         "in_transaction" => {
                             let _ = c.query(&format!("BEGIN {}", tag("hostile", &format!("h.{}.b", ci), "")), 3000);
@@ -406,7 +413,7 @@ fn ban_leg(seed: u64, rep: &Report) -> Result<(), String> {
     for k in 0..12 {
         let m = *rng.pick(&seqs);
         let in_txn = rng.chance(1, 2);
-        let mut c = Conn::connect(&cell.addr(), &StartupOpts::new(USER, "db", PASS).app("hostile")).map_err(|e| e.to_string())?;
+        let mut c = Conn::connect(&cell.addr(), &StartupOpts::new(USER, "db", PASS).app("app")).map_err(|e| e.to_string())?;
         if in_txn {
             let _ = c.query(&format!("BEGIN {}", tag("hostile", &format!("hb.{}", k), "")), 3000);
         }
